@@ -185,4 +185,18 @@ CHECKS = {
         'technique': 'TLA+ design model (EventBus) exhaustively checked + TLC-generated histories executed on the real dispatcher with '
                      'step-wise TLC trace validation (TraceBus)',
     },
+    'C20': {
+        'text': 'Design model Idle.tla (integer clock, last client-side traffic, pending output behind a full client wire, periodic sweep) '
+                'checked exhaustively by TLC for ReapedOnlyIfIdle (action property) and NeverWithPending over all timed traces with '
+                'events placed at threshold -1 / 0 / +1. tlc -simulate timed traces are executed on the REAL handler (established CONNECT '
+                'tunnel on in-memory sockets, virtual clock patched over time.time, client wire of CAP units, Reap = the executor\'s own '
+                '_cleanup_inactive); TLC (TraceIdle) requires after every step that the connection is closed exactly when the model says: '
+                'never reaped with client-side traffic within the timeout or with pending output, always reaped by the first sweep after '
+                'the timeout has elapsed.',
+        'design_ref': 'DESIGN.md section 6, C20',
+        'note': 'Trusted: TLC, SimNet, the virtual clock. The tick arithmetic of _run_forever that decides when sweeps happen and the '
+                'threaded-mode loop are not exercised (they share is_inactive / last_activity with this path).',
+        'technique': 'TLA+ timed design model (Idle) exhaustively checked + TLC-generated timed traces executed on the real handler with '
+                     'step-wise TLC trace validation (TraceIdle)',
+    },
 }
